@@ -96,7 +96,7 @@ theorem simulate_sound (m : Mdl) (H : Nat) : ∀ (fuel : Nat) (t : Tree) (p : Pa
       split at h
       · rename_i hc
         simp only [Bool.and_eq_true, decide_eq_true_eq] at hc
-        obtain ⟨⟨hs, ha⟩, hv⟩ := hc
+        obtain ⟨⟨⟨hs, ha⟩, hv⟩, _⟩ := hc
         split at h
         · simp at h
         · rename_i t1 hd
@@ -1208,7 +1208,7 @@ theorem particles_consistent {m : Mdl} {t : Tree} (h : Reach m t) : ∀ (q : Pat
 /-! ### Witnesses: the hypotheses are satisfiable, and the source's rollout length breaks the horizon -/
 
 /-- a two-action model, every reward 1, discount 1/2, never terminal, rollout length as in the source (`+ 1`) -/
-def exM : Mdl := { pomcp := false, gamma := 1/2, rollOff := 1, rollGuard := false, numA := fun _ => 2,
+def exM : Mdl := { pomcp := false, gamma := 1/2, rollOff := 1, rollGuard := false, explPos := true, numA := fun _ => 2,
                    valid := fun st => st.r == 1 && !st.term }
 def exStep (a : Nat) : Step := { s := 0, a := a, s1 := 0, o := 0, r := 1, term := false }
 /-- horizon 2, two iterations: each simulation creates a leaf at depth 1 and rolls out 2 more steps -/
@@ -1256,7 +1256,7 @@ theorem depth_le_horizon_counterexample :
 theorem v_in_return_range_counterexample :
     ∃ (t' : Tree) (r : Rat) (used : List Step), Sim exM 2 (Tree.fresh [0] 2 4) [] 0 0 used t' r ∧ hiR exM.gamma 1 2 < r := by
   have h : (simulate exM 2 3 (Tree.fresh [0] 2 4) [] 0 0 (exLog.take 4)).map (fun x => x.2.1) = some (15/8) := by
-    simp [simulate, descend, rollout, exLog, exStep, exM, Tree.fresh, Tree.incN, Tree.create, Tree.update, Mdl.key, Mdl.rollLen]
+    simp [simulate, descend, rollout, exLog, exStep, exM, Tree.fresh, Tree.incN, Tree.create, Tree.update, Mdl.key, Mdl.rollLen, uctOk, firstUntried]
     norm_num
   rw [Option.map_eq_some_iff] at h
   obtain ⟨⟨t', r, rest⟩, hx, hp⟩ := h
